@@ -29,6 +29,12 @@ Clause by clause
                      `serialize_order_irrelevant`; `serialize_order_only_global` (every cfg).
                      Across interpreter runs: run-time check.
 * skipping           `skip_independent_current`, from `skip_independent`.
+* frame attributes   F35 (open): the writer does not bring a coordinate to the default equinox/obstime of
+                     the frame word it writes.  `ds9_attrs` (every cfg: positions come back at `T r` when the
+                     writer transforms or the attributes are the defaults), `ds9_attrs_full` with
+                     `ds9_attrs_full_refuted_while_unrepaired` / `ds9_attrs_full_holds_once_repaired` (both
+                     compile before and after the switch `Cfg.current.stdAttrs`), `ds9_attrs_partial`
+                     (`DefaultAttrs`).  `T` = astropy's transform, a parameter.
 * regression         `skip_unrepaired_refuted` / `skip_unrepaired_raises` (F3), `excludedBool_unrepaired_trip`
                      (F4), `serialize_order_unrepaired_refuted` (F5): what the writer did before the fixes.
 * characters         `lex (render o) = toRaw o` is NOT a theorem: evaluated by the driver on every case.
@@ -591,5 +597,96 @@ theorem ds9_fixed_point_current (ord : List Key) (p : ℕ) (rs : List Region)
   ds9_fixed_point codeCfg ord (roundTo p) p (skyFix_roundTo p) rs hn
 
 example : roundTrip codeCfg [] (roundTo 3) 3 [normalExcluded] = .ok [normalExcluded] := by decide +kernel
+
+/-! ## frame attributes: equinox / obstime of the coordinate's frame (F35)
+
+A sky region may live in FK5 at another equinox than J2000, in FK4 at another equinox/obstime, in
+the mean ecliptic of another equinox: all "supported frames" whose DS9 word (`j2000`, `b1950`,
+`ecliptic`) means the default attributes.  `T r` = the positions of `r` in the default-attribute
+frame (astropy's `transform_to(FrameClass(), merge_attributes=False)`, a parameter).  The region
+read back must sit at `T r` (rounded), not at the untransformed numbers. -/
+
+/-- frames that already have the default attributes (and pixel regions). -/
+def DefaultAttrs (T : AttrMap) (r : Region) : Prop := T r = r.coords
+instance (T : AttrMap) (r : Region) : Decidable (DefaultAttrs T r) := by unfold DefaultAttrs; infer_instance
+
+/-- where the regions come back. -/
+def PositionsKept (T : AttrMap) (p : ℕ) (sky : ℚ → ℚ) (r r' : Region) : Prop :=
+  r'.frame = r.frame ∧ r'.coords = (T r).map (expCoord sky p (decide (r.frame = .image)))
+
+/-- **Positions, any frame attributes** — for every `cfg`: if the writer transforms to the default
+attributes (`cfg.stdAttrs`, F35 repaired), or every region already has them, then whenever writer and
+reader do not raise every expressible region comes back in its frame at `T r`, rounded. -/
+theorem ds9_attrs (cfg : Cfg) (T : AttrMap) (ord : List Key) (sky : ℚ → ℚ) (p : ℕ) (rs out : List Region)
+    (hwf : ∀ r ∈ rs, WF (stdRegion T r))
+    (h : cfg.stdAttrs = true ∨ ∀ r ∈ rs, DefaultAttrs T r)
+    (ht : tripDs9 cfg T ord sky p rs = .ok out) :
+    List.Forall₂ (PositionsKept T p sky) (rs.filter fun r => decide (Expressible r)) out := by
+  unfold tripDs9 at ht
+  rw [standardize_eq_map cfg T rs h] at ht
+  rcases roundTrip_ok ht with ⟨rfl, hnil⟩ | ⟨o, hs, hp⟩
+  · rw [filter_expressible_map_std, List.map_eq_nil_iff] at hnil
+    rw [hnil]
+    exact List.Forall₂.nil
+  · have hwf' : ∀ r ∈ rs.map (stdRegion T), WF r := by
+      intro r hr
+      obtain ⟨r0, hr0, rfl⟩ := List.mem_map.mp hr
+      exact hwf r0 hr0
+    have hrt := ds9_roundtrip cfg ord sky p _ o out hwf' hs hp
+    rw [filter_expressible_map_std, List.forall₂_map_left_iff] at hrt
+    exact hrt.imp (fun r r' hrr => ⟨hrr.frame, hrr.coords⟩)
+
+/-- the clause for the code as it is. -/
+def ds9_attrs_full : Prop :=
+  ∀ (T : AttrMap) (ord : List Key) (p : ℕ) (rs out : List Region), (∀ r ∈ rs, WF (stdRegion T r)) →
+    tripDs9 codeCfg T ord (roundTo p) p rs = .ok out →
+    List.Forall₂ (PositionsKept T p (roundTo p)) (rs.filter fun r => decide (Expressible r)) out
+
+/-- a 1° circle at (10°, 20°) in FK5 at equinox J1975; in FK5 at J2000 that position is
+(10.329239°, 20.137002°), 1217.65″ away. -/
+def fk5J1975 : Region := ⟨.circle, .fk5, [(10, 20)], [1], none, [], []⟩
+def toJ2000 : AttrMap := fun r =>
+  if r = fk5J1975 then [(10329239 / 1000000, 20137002 / 1000000)] else r.coords
+
+/-- a writer that does not transform writes `j2000; circle(10.000,20.000,1.000)` and the region comes
+back at (10, 20) of J2000. -/
+theorem fk5J1975_untransformed_trip :
+    tripDs9 { codeCfg with stdAttrs := false } toJ2000 [] (roundTo 3) 3 [fk5J1975] =
+      .ok [⟨.circle, .fk5, [(10, 20)], [1], none, [(.include, .int 1)],
+            [(.default_style, .str "ds9".toList)]⟩] := by decide +kernel
+
+/-- … a writer that transforms puts it where it belongs. -/
+theorem fk5J1975_transformed_trip :
+    tripDs9 { codeCfg with stdAttrs := true } toJ2000 [] (roundTo 3) 3 [fk5J1975] =
+      .ok [⟨.circle, .fk5, [(10329 / 1000, 20137 / 1000)], [1], none, [(.include, .int 1)],
+            [(.default_style, .str "ds9".toList)]⟩] := by decide +kernel
+
+theorem cfg_of_stdAttrs_false (c : Cfg) (h : c.stdAttrs = false) : c = { c with stdAttrs := false } := by
+  cases c; simp_all
+
+/-- F35: as long as the writer does not transform (`codeCfg.stdAttrs = false`) the clause is refuted … -/
+theorem ds9_attrs_full_refuted_while_unrepaired (h : codeCfg.stdAttrs = false) : ¬ ds9_attrs_full := by
+  intro H
+  have H' := H toJ2000 [] 3 [fk5J1975] _ (by decide +kernel)
+    (by rw [cfg_of_stdAttrs_false codeCfg h]; exact fk5J1975_untransformed_trip)
+  revert H'
+  unfold PositionsKept
+  decide +kernel
+
+/-- … and once it does (`codeCfg.stdAttrs = true`, the one-line switch) the clause holds. -/
+theorem ds9_attrs_full_holds_once_repaired (h : codeCfg.stdAttrs = true) : ds9_attrs_full :=
+  fun T ord p rs out hwf ht => ds9_attrs codeCfg T ord (roundTo p) p rs out hwf (Or.inl h) ht
+
+/-- the clause as it holds of the code whatever the state of F35: regions whose frames have the
+default attributes. -/
+theorem ds9_attrs_partial (T : AttrMap) (ord : List Key) (p : ℕ) (rs out : List Region)
+    (hwf : ∀ r ∈ rs, WF (stdRegion T r)) (hdef : ∀ r ∈ rs, DefaultAttrs T r)
+    (ht : tripDs9 codeCfg T ord (roundTo p) p rs = .ok out) :
+    List.Forall₂ (PositionsKept T p (roundTo p)) (rs.filter fun r => decide (Expressible r)) out :=
+  ds9_attrs codeCfg T ord (roundTo p) p rs out hwf (Or.inr hdef) ht
+
+example : ¬ DefaultAttrs toJ2000 fk5J1975 := by decide +kernel
+example : DefaultAttrs toJ2000 circleWitness := by decide +kernel
+example : WF (stdRegion toJ2000 fk5J1975) := by decide +kernel
 
 end RegionsVerif.Props.C09
